@@ -27,6 +27,7 @@ type Loader struct {
 	globIDs   map[*ssa.Global]uint64
 	allFuncs  map[string]*ssa.Function
 	LoadMs    int64
+	Known     *knownSet
 }
 
 func Load(repoDir, specDir string, patterns []string) (*Loader, error) {
@@ -68,6 +69,7 @@ func Load(repoDir, specDir string, patterns []string) (*Loader, error) {
 		return nil, err
 	}
 	l.Contracts = cs
+	l.Known = loadKnownFindings(verifDir + "/KNOWN_FINDINGS.txt")
 	return l, nil
 }
 
